@@ -25,6 +25,20 @@ Definition access_ok (a : access) : bool :=
     end
   else existsb (holds (a_held a)) (guards (a_field a)).
 
+(** A field without any write entry in the table is never written by a
+    conforming thread: its reads need no lock. *)
+Definition never_written (tbl : list access) (f : field) : bool :=
+  negb (existsb (fun a => a_write a && String.eqb (a_field a) f) tbl).
+
+Definition access_ok_ro (ro : field -> bool) (a : access) : bool :=
+  if a_write a then
+    negb (ro (a_field a)) &&
+    match guards (a_field a) with
+    | [] => false
+    | gs => forallb (holds_w (a_held a)) gs
+    end
+  else ro (a_field a) || existsb (holds (a_held a)) (guards (a_field a)).
+
 Definition listed (keys : list string) (k : string) : bool :=
   existsb (String.eqb k) keys.
 
@@ -33,7 +47,7 @@ Definition checked (known : list string) (tbl : list access) : list access :=
   filter (fun a => negb (listed known (access_key a))) tbl.
 
 Definition bad_accesses (known : list string) (tbl : list access) : list access :=
-  filter (fun a => negb (access_ok a)) (checked known tbl).
+  filter (fun a => negb (access_ok_ro (never_written tbl) a)) (checked known tbl).
 
 Definition rank_of (ranks : list (string * nat)) (l : lock) : nat :=
   match find (fun p => String.eqb (fst p) l) ranks with
@@ -182,6 +196,48 @@ Proof.
   intros tbl Hok progs HF. apply (well_locked_m_race_free guards).
   rewrite Forall_forall in *. intros p Hp.
   apply (conforms_well_locked tbl Hok). apply HF; assumption.
+Qed.
+
+Lemma conforms_well_locked_ro : forall ro tbl,
+  forallb (access_ok_ro ro) tbl = true ->
+  forall p h, conforms tbl h p = true -> well_locked_ro guards ro h p = true.
+Proof.
+  intros ro tbl Hok p; induction p as [|e p IH]; intros h H; [reflexivity|].
+  rewrite forallb_forall in Hok.
+  destruct e as [l m|l m|f|f]; cbn [conforms well_locked_ro] in *.
+  - apply IH; assumption.
+  - apply andb_true_iff in H as [H1 H2]. rewrite H1; cbn. apply IH; assumption.
+  - apply andb_true_iff in H as [H1 H2]. rewrite (IH h H2), andb_true_r.
+    unfold covered in H1. apply existsb_exists in H1 as (a & Hin & Ha).
+    apply andb_true_iff in Ha as [Ha Hs]. apply andb_true_iff in Ha as [Hf Hw].
+    apply String.eqb_eq in Hf. apply Bool.eqb_prop in Hw.
+    specialize (Hok a Hin). unfold access_ok_ro in Hok. rewrite Hw, Hf in Hok.
+    apply orb_true_iff in Hok as [Hro|Hg]; apply orb_true_iff; [left; exact Hro|right].
+    apply existsb_exists in Hg as (g & Hg & Hh).
+    apply existsb_exists; exists g; split; [assumption|].
+    eapply subset_holds; eassumption.
+  - apply andb_true_iff in H as [H1 H2]. rewrite (IH h H2), andb_true_r.
+    unfold covered in H1. apply existsb_exists in H1 as (a & Hin & Ha).
+    apply andb_true_iff in Ha as [Ha Hs]. apply andb_true_iff in Ha as [Hf Hw].
+    apply String.eqb_eq in Hf. apply Bool.eqb_prop in Hw.
+    specialize (Hok a Hin). unfold access_ok_ro in Hok. rewrite Hw, Hf in Hok.
+    apply andb_true_iff in Hok as [Hro Hg]. rewrite Hro; cbn.
+    destruct (guards f) as [|g gs]; [discriminate|].
+    rewrite forallb_forall in Hg.
+    change (forallb (holds_w h) (g :: gs) = true).
+    apply forallb_forall. intros x Hx.
+    eapply subset_holds_w; [eassumption|apply Hg; assumption].
+Qed.
+
+(** The same with never-written fields: their reads need no lock. *)
+Theorem table_race_free_ro : forall ro tbl,
+  forallb (access_ok_ro ro) tbl = true ->
+  forall progs, Forall (fun p => conforms tbl [] p = true) progs ->
+  forall s, reachable (init progs) s -> ~ race s.
+Proof.
+  intros ro tbl Hok progs HF. apply (well_locked_ro_race_free guards ro).
+  rewrite Forall_forall in *. intros p Hp.
+  apply (conforms_well_locked_ro ro tbl Hok). apply HF; assumption.
 Qed.
 
 Lemma acq_covered_ranked : forall rank ord h l,
